@@ -42,6 +42,12 @@ func try(n int, logCache int, mutate func(i int, c *storage.Config)) (*Cluster, 
 		members[uint64(i+1)] = raft[i]
 	}
 	c := &Cluster{}
+	// several nodes: an election timeout of 100 ms, so that a loaded machine (delayed heartbeats) does not depose the
+	// leader in the middle of a behaviour; one node: 20 ms (it elects itself)
+	election := uint64(10)
+	if n > 1 {
+		election = 50
+	}
 	for i := 0; i < n; i++ {
 		cfg := storage.Config{
 			NodeID:         uint64(i + 1),
@@ -52,8 +58,8 @@ func try(n int, logCache int, mutate func(i int, c *storage.Config)) (*Cluster, 
 			RaftAddress:    raft[i],
 			Gossip:         storage.GossipConfig{BindAddress: gossip[i], AdvertiseAddress: gossip[i], InitialMembers: gossip, ClusterName: "verif", NodeName: fmt.Sprintf("n%d", i+1)},
 			Table: storage.TableConfig{FS: pvfs.NewMem(), DataDir: "/tables", TableCacheSize: 256, BlockCacheSize: 1 << 20,
-				ElectionRTT: 10, HeartbeatRTT: 1, SnapshotEntries: 100000, CompactionOverhead: 5000, MaxInMemLogSize: 6 * 1024 * 1024},
-			Meta:         storage.MetaConfig{ElectionRTT: 10, HeartbeatRTT: 1, SnapshotEntries: 100000, CompactionOverhead: 5000, MaxInMemLogSize: 1024 * 1024},
+				ElectionRTT: election, HeartbeatRTT: 1, SnapshotEntries: 100000, CompactionOverhead: 5000, MaxInMemLogSize: 6 * 1024 * 1024},
+			Meta:         storage.MetaConfig{ElectionRTT: election, HeartbeatRTT: 1, SnapshotEntries: 100000, CompactionOverhead: 5000, MaxInMemLogSize: 1024 * 1024},
 			FS:           vfs.NewMem(),
 			Log:          zap.NewNop().Sugar(),
 			LogCacheSize: logCache,
